@@ -78,10 +78,15 @@ CHECKS["C06"] = {"text": "Proved on the model: (a) after __update no task with a
     "technique": "Coq proof: completeness of check_ready / finishing fixpoint / closed form of check_working; oracle for the idle-worker clause; correspondence on states, allocations, placements"}
 CHECKS["C10"] = {"text": "Proved on the model: at a project-wide absence step nothing is allocated, assigned or moved, no non-automatic task progresses, an automatic WORKING task loses exactly its unit rate iff "
     "the flag is set, nothing starts unless the flag is set; at every non-working row of the history all workers and facilities are logged ABSENCE and all cost entries at all levels are 0; a resource in "
-    "state ABSENCE contributes 0 progress and costs 0, and the absence refresh of a working step sets ABSENCE exactly for the listed steps. PARTIAL: that the ABSENCE state persists through the rest of "
-    "the step, and the deletion clause (remove_absence_time_list gives the absence-free result), are searched by the oracle; for the deletion clause one finding is recorded (FIFO rule, known_findings.json).",
-    "note": COMMON_NOTE + " PARTIAL: deletion clause searched; KNOWN FINDING C10/f-fifo.",
-    "technique": "Coq proof: phase characterisations + ghost-history log representation; oracle (incl. deletion vs absence-free run) + full-state correspondence"}
+    "state ABSENCE contributes 0 progress and costs 0, and the absence refresh of a working step sets ABSENCE exactly for the listed steps. DELETION clause proved for the task priority rules that do not read "
+    "PERT values (SPT, LPT, LRPT, SRPT, LWRPL, SWRPL) with the auto-task flag off, no individual absence lists, disjoint component trees, a fresh run that succeeds: remove_absence_time_list applied to the result "
+    "of the run with ANY absence list (any order, duplicates, steps beyond the end) has the same time, status, live state and the same logs and cost lists at every level as the run without absence (lock-step "
+    "simulation on the behaviour-relevant key of the state: every phase computes the key of its result from the key of its argument, an absence step is a stutter, __update is idempotent on the key; "
+    "popping sorted(set(L)) from a log keeps exactly the entries at unlisted positions); PERT scratch values are not compared. PARTIAL: that the ABSENCE state persists through the rest of the step, and the "
+    "deletion clause for the PERT-reading rules (TSLACK, EST) and FIFO, are searched by the oracle; for FIFO one finding is recorded (known_findings.json).",
+    "note": COMMON_NOTE.replace("no axioms (Print Assumptions: closed under the global context)", "the deletion theorem uses one standard-library axiom, functional_extensionality_dep (through the idempotence of __update); the other C10 theorems are closed under the global context") +
+            " PARTIAL: deletion clause searched for rules 0, 1, 4 and with the auto-task flag on; KNOWN FINDING C10/f-fifo.",
+    "technique": "Coq proof: phase characterisations + ghost-history log representation + key congruence / stutter simulation between the two runs; oracle (incl. deletion vs absence-free run) + full-state correspondence"}
 CHECKS["C11"] = {"text": "Proved on the model: sort_task_list (9 rules), sort_worker_list (MW/SSP/VC/HSV, with and without target workplace; main workplace compared by value), "
     "sort_facility_list (all four rule values, MW keeps the order) and sort_workplace_list (FSS/SSP) each return a permutation of the input that is sorted by the documented key and "
     "stable on ties (generic theorems about the model's stable insertion sort for total preorders; lexicographic triples for resources, a missing HSV entry sorts last). The key functions and call "
@@ -153,4 +158,13 @@ CHECKS["C15"] = {"text": "Proved for every configuration, options, incoming stat
     "note": COMMON_NOTE + " PARTIAL only in this sense: for networks with FF/SF links a task can overshoot its work while blocked (negative remaining work); for such states the idempotence of the PERT refresh is a hypothesis "
     "(validated per run). Uses functional_extensionality_dep (states are records of functions). The JSON route relies on C16.",
     "technique": "Coq proof (status-independence of every phase, determinism and trace splitting, idempotence of __update incl. a relational two-run argument for the PERT passes) + per-run validation of the residual side condition + model/implementation correspondence on pause+resume + oracle pausing at every step, in memory and through JSON"}
+CHECKS["C13"] = {"text": "Proved for every product that is a forest (flat and nested; no component reached twice), every configuration, options and run: (a) in every snapshot a workplace lists a component exactly "
+    "when the component reports being placed there and no component is listed twice (so at most one workplace); (b),(c),(d) a component is put somewhere only if no component of its assembly has moved in this step, has a "
+    "WORKING task or holds a resource, every component of the assembly comes from nowhere or from an input workplace the target declares, and its size minus 1e-8 is below the free space -- then exactly its assembly moves; "
+    "the moved list of one __allocate never contains a component twice; perform/record do not touch placement; (e) after __update no component of an assembly whose tasks are all FINISHED is placed; (f) in every snapshot "
+    "a task only holds facilities of the workplace where its component is placed; (b) run-level capacity bound in every snapshot of every run: space used < capacity + 1e-8 for flat products, and for nested products the "
+    "same bound on the top-most placed components (descendants of descendants being descendants). The model is tied to the code by the correspondence on "
+    "component states, placements, workplace lists and their logs at every snapshot; the oracle checks all clauses incl. nested capacity on the implementation.",
+    "note": COMMON_NOTE + " The 1e-8 space tolerance of can_put appears in the capacity bound; the nested bound assumes tree_trans (true whenever the depth of the product does not exceed the number of components).",
+    "technique": "Coq proof (placement-record invariant through detach/attach on forests, set_placed_comp/tree correspondence, invariant principle for __allocate with the moved list, facility-site invariant, capacity invariant for flat and nested products) + model/implementation correspondence of placement fields + oracle"}
 NOT_APPLICABLE = {}
